@@ -1,14 +1,14 @@
 CONSTANTS
   MaxObj = 3
-  MaxSteps = 5
-  CreateClasses = {"Mid","Leaf"}
-  QueryClasses = {"Base","Mid"}
+  MaxSteps = 6
+  CreateClasses = {"P"}
+  QueryClasses = {"T"}
   AllowClear = FALSE
   AllowRelate = FALSE
-  AllowQueryX = FALSE
+  AllowQueryX = TRUE
   AllowSweep = FALSE
-  AllowDeclare = TRUE
-  AllowDetach = FALSE
+  AllowDeclare = FALSE
+  AllowDetach = TRUE
   AllowInfer = FALSE
   CopyModes = {}
   UnregisteredModes = {}
@@ -16,6 +16,6 @@ CONSTANTS
   PopIdOfNone = FALSE
   StaleRelationIndex = FALSE
   DupSubclassList = FALSE
-  StrongExprTable = FALSE
+  StrongExprTable = TRUE
 SPECIFICATION Spec
 CONSTRAINT Emit
